@@ -9,6 +9,19 @@ From BT Require Import Gen.ClassTable Gen.SignSets Gen.Templates Core.PyVal Core
 Import ListNotations.
 Local Open Scope list_scope.
 
+(* beartype.vale validators: Is[f], IsAttr[name, v], IsEqual[o], IsInstance[...], IsSubclass[...]
+   and their combinations with &, | and ~.  [VIs f] names a user callable by its index in the
+   table of modelled predicates. *)
+Inductive vexp :=
+| VIs (f : nat)
+| VAttr (name : string) (v : vexp)
+| VEqual (o : pyval)
+| VInst (cs : list nat)
+| VSub (cs : list nat)
+| VAnd (a b : vexp)
+| VOr (a b : vexp)
+| VNot (a : vexp).
+
 Inductive hint :=
 | HAny                                 (* typing.Any / object *)
 | HCls (c : nat)                       (* a plain class, or None (NoneType) *)
@@ -19,7 +32,8 @@ Inductive hint :=
 | HCounter (k : hint)
 | HTuple (hs : list hint)              (* fixed-length tuple; [] is tuple[()] *)
 | HLiteral (vs : list pyval)
-| HType (cs : list nat).               (* type[C] / type[Union[C1, ...]] *)
+| HType (cs : list nat)                (* type[C] / type[Union[C1, ...]] *)
+| HAnnot (h : hint) (vs : list vexp).  (* Annotated[h, v1, ..., vn] with beartype validators *)
 
 (* ------------------------------------------------------------------ meaning *)
 
@@ -27,7 +41,23 @@ Inductive hint :=
 Definition coll_items (x : pyval) : option (list pyval) :=
   if issub (type_of x) c_Collection then items_of x else None.
 
+(* the boolean meaning of a validator, given what the user callables answer *)
+Fixpoint vmean (pb : nat -> pyval -> bool) (v : vexp) (x : pyval) : bool :=
+  match v with
+  | VIs f => pb f x
+  | VAttr n w => match py_getattr x n with Some a => vmean pb w a | None => false end
+  | VEqual o => py_eq x o
+  | VInst cs => isinst x cs
+  | VSub cs => isinst x [c_type] && match issubcls x cs with Some b => b | None => false end
+  | VAnd a b => vmean pb a x && vmean pb b x
+  | VOr a b => vmean pb a x || vmean pb b x
+  | VNot a => negb (vmean pb a x)
+  end.
+
 Definition lit_member (x v : pyval) : bool := py_eq x v && Nat.eqb (type_of x) (type_of v).
+
+Section Sat.
+Variable pb : nat -> pyval -> bool.
 
 Fixpoint sat (h : hint) (x : pyval) {struct h} : bool :=
   match h with
@@ -69,7 +99,9 @@ Fixpoint sat (h : hint) (x : pyval) {struct h} : bool :=
       end
   | HLiteral vs => existsb (lit_member x) vs
   | HType cs => match issubcls x cs with Some b => b | None => false end
+  | HAnnot mh vs => sat mh x && forallb (fun v => vmean pb v x) vs
   end.
+End Sat.
 
 (* ------------------------------------------------------------------ reduction *)
 
@@ -104,6 +136,30 @@ Fixpoint dedup (l : list nat) : list nat :=
   | [] => []
   | x :: l' => if existsb (Nat.eqb x) l' then dedup l' else x :: dedup l'
   end.
+
+(* the temporary a nested IsAttr binds: "<obj>_isattr_<name>" *)
+Definition attr_tmp (obj : var) (name : string) : var :=
+  match obj with
+  | Pith n => Tmp n [name]
+  | Tmp n p => Tmp n (p ++ [name])
+  end.
+
+(* the inline code of a validator applied to the local variable [obj] (mirrors the string
+   composition in beartype/vale/_core/_valecore{binary,unary}.py and vale/_is/*.py over the
+   regenerated snippets) *)
+Fixpoint vcode (v : vexp) (obj : var) : expr :=
+  match v with
+  | VIs f => ECallPred f (EVar obj)
+  | VAttr n w => tpl_vale_isattr n (vcode w (attr_tmp obj n)) (attr_tmp obj n) (EVar obj)
+  | VEqual o => tpl_vale_isequal o (EVar obj)
+  | VInst cs => tpl_vale_isinstance (EVar obj) cs
+  | VSub cs => tpl_vale_issubclass (EVar obj) cs
+  | VAnd a b => EAnd (vcode a obj) (vcode b obj)
+  | VOr a b => EOr (vcode a obj) (vcode b obj)
+  | VNot a => ENot (vcode a obj)
+  end.
+
+Definition is_ident (e : expr) : option var := match e with EVar x => Some x | _ => None end.
 
 Section Gen.
   Variable cf : gconf.
@@ -190,6 +246,13 @@ Section Gen.
         tpl_literal_outer_op (tpl_literal_prefix (dedup (map type_of vs)) assign)
                              (join tpl_literal_inner_op (map (fun l => tpl_literal_item l v) vs))
     | HType cs => tpl_subclass cs assign v
+    | HAnnot mh vs =>
+        if ignorable mh then
+          match is_ident pith with
+          | Some x => join tpl_annotated_op (map (fun w => vcode w x) vs)
+          | None => join tpl_annotated_op (tpl_annotated_pith assign v :: map (fun w => vcode w (Pith i)) vs)
+          end
+        else join tpl_annotated_op (gen mh assign i :: map (fun w => vcode w (Pith i)) vs)
     end.
 
   (* the checker of a root hint: pith variable 0 holds the object *)
